@@ -42,6 +42,11 @@ def re_int_literal():
     return z3.Concat(ws, sign, body, ws)
 
 
+def Raise_():
+    from .exec import Raise
+    return Raise
+
+
 class Models(object):
     """default hooks (all return None = 'not handled')"""
 
@@ -174,7 +179,28 @@ class Models(object):
         return None
 
     def with_(self, ex, path, fr, st):
-        return None
+        """`with <file object> [as name]: body` for an opaque file object (kind 'file'): __enter__ returns the object itself,
+        __exit__ closes it and suppresses nothing.  Any other context manager: no model."""
+        if len(st.items) != 1:
+            return None
+        item = st.items[0]
+        out = []
+        for p, v in ex.eval(item.context_expr, path, fr):
+            if isinstance(v, Raise_()):
+                out.append((p, 'raise', v.exc))
+                continue
+            if not (isinstance(v, VOpaque) and v.kind == 'file'):
+                return None
+            self.assumptions.add('with <file>: __enter__ returns the file object, __exit__ closes it and suppresses no exception')
+            if item.optional_vars is not None:
+                for p2, r in ex.assign(item.optional_vars, v, p, fr):
+                    if isinstance(r, Raise_()):
+                        out.append((p2, 'raise', r.exc))
+                    else:
+                        out.extend(ex.exec_block(st.body, p2, fr))
+            else:
+                out.extend(ex.exec_block(st.body, p, fr))
+        return out
 
     def await_(self, ex, path, fr, v, node):
         from .exec import Unsupported
